@@ -268,10 +268,16 @@ func VerifyAddressKey(ip netip.Addr, digestAlg crop.Hash, keyType crop.KeyPairTy
 		return errors.New("IP not specified")
 	case digestAlg == "":
 		return errors.New("hash algorithm not specified")
+	case !digestAlg.IsValid():
+		return errors.New("unknown hash algorithm")
 	case keyType == "":
 		return errors.New("key type not specified")
+	case !keyType.IsValid():
+		return errors.New("unknown key type")
 	case len(pubKeyData) == 0:
 		return errors.New("key not specified")
+	case keyType == crop.KeyPairTypeEd25519 && len(pubKeyData) != ed25519.PublicKeySize:
+		return fmt.Errorf("invalid public key size: %d (should be %d)", len(pubKeyData), ed25519.PublicKeySize)
 	}
 
 	// Make comparison.
